@@ -316,6 +316,8 @@ def f3_files(tier, daqmx=True, scaled=True):
                                               G.seg([(A, ['SAME'])], newlist=False)]))
     out.append(('special/short-final-contiguous', [G.seg([(B, _full('Int16', 3)), (A, _full('Int32', 2))], chunks=1),
                                                    G.seg([(B, _full('Int16', 3)), (A, _full('Int32', 2))], chunks=3, short=6)]))
+    out.append(('special/short-final-contiguous-3', [G.seg([(B, _full('Int16', 3)), (A, _full('Int32', 2))], chunks=3, short=3)]))
+    out.append(('special/short-final-contiguous-9', [G.seg([(B, _full('Int8', 5)), (C, _full('Int16', 2)), (A, _full('Int32', 2))], chunks=2, short=9)]))
     out.append(('special/short-final-interleaved', [G.seg([(B, _full('Int16', 2)), (A, _full('Int32', 2))], chunks=3, interleaved=True, short=5)]))
     out.append(('special/many-segments', [G.seg([(A, _full('Int32', 1)), (B, _full('Int16', 2))])] +
                 [G.seg([], meta=False, chunks=1 + (i % 2)) for i in range(7)]))
